@@ -295,24 +295,29 @@ def reflect(env: Env, mid, op, cls, fn, schema):
 
 # ----------------------------------------------------------------------------- oracle: real calls
 def test_value(env: Env, a, variant=0):
-    """A distinctive value for schema attribute `a` (never equal to its default)."""
+    """A distinctive value for schema attribute `a` (never equal to its default); `variant` 1 uses
+    edge values (negative / large / empty / non-ASCII)."""
     np = env.np
     T = a.type.name
     d = schema_default(env, a)
     if T == "INT":
+        if variant:
+            return -7 if d != -7 else -8
         return 3 if d != 3 else 4
     if T == "FLOAT":
+        if variant:
+            return -1.5 if d is None or f32_bits(d) != f32_bits(-1.5) else -2.5
         return 0.625 if d is None or f32_bits(d) != f32_bits(0.625) else 0.375
     if T == "STRING":
-        return "s_" + a.name
+        return ("\u00fc " + a.name) if variant else "s_" + a.name
     if T == "INTS":
-        return [1, 2]
+        return [] if variant and d != [] else [1, 2]
     if T == "FLOATS":
-        return [0.5, 1.5]
+        return [-0.0, 3.5] if variant else [0.5, 1.5]
     if T == "STRINGS":
-        return ["a", "b"]
+        return [""] if variant and d != [""] else ["a", "b"]
     if T == "TENSOR":
-        return np.array([1, 2], dtype=np.int64)
+        return np.array([[1.5]], dtype=np.float32) if variant else np.array([1, 2], dtype=np.int64)
     if T == "TENSORS":
         return [np.array([1, 2], dtype=np.int64)]
     if T == "TYPE_PROTO":
@@ -332,7 +337,7 @@ OUTPUT_COUNT_ATTRS = {"Split": "num_outputs"}
 N_VARIADIC_OUT = 2
 
 
-def gen_cases(schema, rng, budget_extra: int):
+def gen_cases(schema, rng, budget_extra: int, all_attr_subsets_upto: int = 3):
     """Subsets of optional inputs x attribute subsets (none / all / one at a time / a few random)."""
     opt_inputs = [p.name for p in schema.inputs if p.option.name == "Optional"]
     variadic = [p for p in schema.inputs if p.option.name == "Variadic"]
@@ -363,17 +368,27 @@ def gen_cases(schema, rng, budget_extra: int):
     for a in optional_attrs:
         cases.append({"present": sorted(full), "variadic": var_counts[-1], "attrs": sorted(set(required_attrs) | {a}),
                       "mode": "kw"})
+    if len(optional_attrs) <= all_attr_subsets_upto:
+        for r in range(len(optional_attrs) + 1):
+            for sel in itertools.combinations(optional_attrs, r):
+                for ins in (set(), full):
+                    cases.append({"present": sorted(ins), "variadic": var_counts[0],
+                                  "attrs": sorted(set(required_attrs) | set(sel)), "mode": "kw"})
+    if optional_attrs or required_attrs:
+        cases.append({"present": sorted(full), "variadic": var_counts[-1],
+                      "attrs": sorted(set(required_attrs) | set(optional_attrs)), "mode": "kw", "variant": 1})
     for _ in range(budget_extra):
         cases.append({
             "present": sorted(x for x in opt_inputs if rng.random() < 0.5),
             "variadic": rng.choice(var_counts),
             "attrs": sorted(set(required_attrs) | {a for a in optional_attrs if rng.random() < 0.5}),
             "mode": rng.choice(["kw", "pos"]),
+            "variant": rng.randrange(2),
         })
     # de-duplicate
     seen, out = set(), []
     for c in cases:
-        key = (tuple(c["present"]), c["variadic"], tuple(c["attrs"]), c["mode"])
+        key = (tuple(c["present"]), c["variadic"], tuple(c["attrs"]), c["mode"], c.get("variant", 0))
         if key not in seen:
             seen.add(key)
             out.append(c)
@@ -451,7 +466,7 @@ def run_case1(env: Env, fn, schema, case, prefer_seq):
         attrs.append(count_attr)  # documented deviation: must always be given (feeds out_variadic)
     for a in attrs:
         sa = schema.attributes[a]
-        given[a] = (lambda *xs: list(cb_vars)) if sa.type.name == "GRAPH" else test_value(env, sa)
+        given[a] = (lambda *xs: list(cb_vars)) if sa.type.name == "GRAPH" else test_value(env, sa, case.get("variant", 0))
     if count_attr in given:
         given[count_attr] = N_VARIADIC_OUT
     extra = {}
@@ -713,6 +728,9 @@ def call_request(env, info, pair, schema, case, r):
     if f is None or f["cls"] is None or f["cls"] not in info["classes"]:
         return None
     node = r["node"]
+    sd = info["schemas"].get(pair.get("schema"))
+    if sd is None:
+        return None
     KIND = {env.VarFieldKind.SINGLE: "s", env.VarFieldKind.OPTIONAL: "o", env.VarFieldKind.VARIADIC: "v"}
     outs = []
     i = 0
@@ -731,7 +749,8 @@ def call_request(env, info, pair, schema, case, r):
     return {
         "kind": "call", "ctor": c,
         "supplied": {a: to_val(env, schema.attributes[a], v) for a, v in r["given"].items()},
-        "args": r["args"], "mins": [node.min_input, node.min_output], "outputs": outs,
+        # minima from the *generated* schema table (what the theorems use), not from the live node
+        "args": r["args"], "mins": [sd["minInput"], sd["minOutput"]], "outputs": outs,
     }
 
 
@@ -786,7 +805,7 @@ def run(ck: core.Check):
     ck.cov["listed_deviations"] = [f"{p['module']}:{p['op']}:{','.join(p['except'])}" for p in info["pairs"] if p["except"]]
     res = ck.lean(["SpoxModel.Props.C11"], audit="SpoxModel.Audit.C11")
     if ck.thorough:
-        ck.leanchecker(["SpoxModel.Props.C11"])
+        ck.leanchecker(["SpoxModel.Props.C11"] + [f"SpoxModel.Generated.Conforms_{m[0]}" for m in MODULES])
     bad_pairs = failing_pairs(res)
     for p in info["pairs"]:
         ck.obligations.append({"name": f"Generated.Conforms.{p['module']}.{p['theorem']}",
@@ -803,7 +822,7 @@ def run(ck: core.Check):
     reqs, req_meta = [], []
     stats = {"calls": 0, "raised": 0, "with_omitted_inner_optional": 0, "with_trimmed_trailing": 0,
              "attr_values_checked": 0, "dtype_attrs": 0, "graph_attr_calls": 0, "distinct_ctor_schema": 0}
-    extra = ck.pick(2, 12)
+    extra = ck.pick(2, 40)
     for mid, rel, domain, version, pymod in MODULES:
         mod = env.module(pymod)
         force = env.schemas(domain, version)
@@ -824,7 +843,7 @@ def run(ck: core.Check):
             if first:
                 stats["distinct_ctor_schema"] += 1
                 runs = []
-                for case in gen_cases(schema, ck.rng, extra):
+                for case in gen_cases(schema, ck.rng, extra, ck.pick(3, 7)):
                     r = run_case(env, fn, schema, case)
                     runs.append((case, r))
                 # every schema attribute the constructor might not know (one call each)
@@ -835,7 +854,7 @@ def run(ck: core.Check):
                 cache[ckey] = runs
             for case, r in cache[ckey]:
                 stats["calls"] += 1
-                ck.count(("call", mid, op, tuple(case["present"]), case["variadic"], tuple(case["attrs"]), case["mode"]))
+                ck.count(("call", mid, op, tuple(case["present"]), case["variadic"], tuple(case["attrs"]), case["mode"], case.get("variant", 0)))
                 verdicts = judge(env, mid, op, version, schema, case, r, cls)
                 for key, what in verdicts:
                     ck.failure(key, what, {"module": mid, "op": op, "kind": "call", "case": case})
